@@ -13,7 +13,7 @@ add("C01", "E2", "model_checking", "bounded exhaustive enumeration of payloads x
 add("C07", "E2", "model_checking", "bounded exhaustive enumeration of payloads x both encoders x every fixed capacity around the frame length against a spec-level encoder",
     "same payload space (length 10 quick / 12 thorough); both encoders must equal the spec-level frame byte for byte, the iterator must stay ended (3 further polls for every payload, 66000 for a sample), encode::<ArrayBuf<N>> must fail exactly when N < frame length (every N in 0..=340 is instantiated: every N for short payloads, F-2..F+1 otherwise), and encode::<Vec> must answer OutOfMemory (not abort) when the heap refuses to grow the buffer (child process)", "§6 C07")
 add("C16", "E2", "model_checking", "bounded exhaustive enumeration of payload x capacity x follow-up frame on the real decoder under the receiver monitor",
-    "every payload up to length 8 (quick) / 10 (thorough) x every capacity 0..|p|+1 x three follow-up frames through every front-end with that static buffer, plus the 8 KiB default buffer at 8191/8192/8193 bytes; N>=|p| must deliver at the last byte, N<|p| must give OutOfMemory, never a payload, and the follow-up frame must be delivered", "§6 C16")
+    "every payload up to length 8 (quick) / 10 (thorough) x every capacity 0..|p|+1 x three follow-up frames through every front-end with that static buffer, plus the 8 KiB default buffer at 8191/8192/8193 bytes; N>=|p| must deliver at the last byte, N<|p| must give OutOfMemory, never a payload, and the follow-up frame must be delivered; every payload also behind a transmission cut off by the next start sequence (10 prefixes incl. 0..7 withheld zeros) with N=|p| and |p|+1", "§6 C16")
 
 add("C02", "E1", "model_checking", "explicit-state BFS over the product (real Decoder state x receiver monitor) with state-adaptive checksum symbols and exact-state dedup",
     "all operation strings over 6 byte classes + state-adaptive CRC bytes + macro symbols + finalize/reset up to depth 6 (quick, 1.4e7 states) / 7 (thorough, 2e8 states) from new() and new()+start sequence and six stale-state roots, Vec and tiny fixed buffers (explored deeper), a wide-alphabet run, multi-frame streams and frames with a foreign escape sequence 1b1b1b1b k a b c spliced in for all 256 k; on every Ok(m) the raw bytes since the start sequence must equal the spec-level frame of m", "§6 C02")
